@@ -130,3 +130,47 @@ Proof.
   intros Hk Hj bases. cbv zeta. rewrite (position_from_origin k Hk), (position_from_origin j Hj). cbn [fst snd].
   rewrite !vscale_vscale, !pscale_pscale. rewrite (Z.mul_comm j k). split; reflexivity.
 Qed.
+
+(* ---- the recursion over a cluster is cut off along every path, whether it follows child or sibling links: what finalise computes
+   on a tree is what it computes on the tree pruned at [fuel] links from the root — deeper nodes are never visited *)
+Fixpoint prune (fuel : nat) (t : bt) : bt :=
+  match fuel, t with
+  | _, Leaf => Leaf
+  | O, BNode p _ _ => BNode p Leaf Leaf
+  | S f, BNode p c s => BNode p (prune f c) (prune f s)
+  end.
+Fixpoint link_depth (t : bt) : nat := match t with Leaf => O | BNode _ c s => S (Nat.max (link_depth c) (link_depth s)) end.
+Lemma prune_depth : forall fuel t, (link_depth (prune fuel t) <= S fuel)%nat.
+Proof.
+  induction fuel as [|f IH]; intros [|p c s]; cbn [prune link_depth]; try lia.
+  pose proof (IH c). pose proof (IH s). lia.
+Qed.
+Lemma finalise_S_congr f k p c s c' s' isroot base cmin :
+  (c = Leaf <-> c' = Leaf) -> (s = Leaf <-> s' = Leaf) ->
+  (forall b m, finalise f k c false b m = finalise f k c' false b m) ->
+  (forall b m, finalise f k s false b m = finalise f k s' false b m) ->
+  finalise (S f) k (BNode p c s) isroot base cmin = finalise (S f) k (BNode p c' s') isroot base cmin.
+Proof.
+  intros Hlc Hls Hc Hs.
+  destruct c as [|pc cc cs], c' as [|pc' cc' cs'];
+    try (exfalso; destruct Hlc as [H1 H2]; (discriminate (H1 eq_refl) || discriminate (H2 eq_refl)));
+  destruct s as [|ps sc ss], s' as [|ps' sc' ss'];
+    try (exfalso; destruct Hls as [H1 H2]; (discriminate (H1 eq_refl) || discriminate (H2 eq_refl)));
+  cbn [finalise]; destruct isroot; cbv iota beta zeta; try reflexivity.
+  - rewrite Hs. reflexivity.
+  - rewrite Hc. reflexivity.
+  - rewrite Hc. reflexivity.
+  - rewrite Hc. reflexivity.
+  - rewrite Hc.
+    match goal with |- context [finalise f k (BNode pc' cc' cs') false ?b ?m] => destruct (finalise f k (BNode pc' cc' cs') false b m) as [[tres cm] pl] end.
+    cbv iota beta zeta. rewrite Hs. reflexivity.
+Qed.
+Lemma prune_leaf fuel t : t = Leaf <-> prune fuel t = Leaf.
+Proof. destruct fuel, t; cbn [prune]; split; intros H; try reflexivity; discriminate H. Qed.
+Theorem finalise_prune : forall fuel k t isroot base cmin, finalise fuel k t isroot base cmin = finalise fuel k (prune fuel t) isroot base cmin.
+Proof.
+  induction fuel as [|f IH]; intros k t isroot base cmin.
+  - destruct t; reflexivity.
+  - destruct t as [|p c s]; [reflexivity|]. cbn [prune].
+    apply finalise_S_congr; [apply prune_leaf | apply prune_leaf | intros b m; apply IH | intros b m; apply IH].
+Qed.
